@@ -7,7 +7,7 @@ import json, os, shutil, subprocess, sys, time
 pid, m = sys.argv[1], sys.argv[2]
 checks = sys.argv[3:] or [pid]
 md = "%s/out/%s/%s" % (os.environ.get("SEED_ROOT", "/tmp/seed"), pid, m)
-dest = "/verif/seeded/%s-%s" % (pid, m)
+dest = "/verif/seeded/%s-%s%s" % (pid, "r2" if os.environ.get("SEED_ROOT", "").endswith("seed2") else "", m)
 
 
 def sh(cmd, cwd=None, timeout=7200):
